@@ -458,8 +458,12 @@ impl<A: ArenaX> Inst<A> {
         self.handles.clear();
         extra = json!({"invalidated": inv});
         let n = op["v"].as_u64().unwrap() as usize;
+        // the length of the backing file afterwards, and the offset at which the arena is mapped in it
+        let flen = |me: &Self| me.file.as_ref().and_then(|p| std::fs::metadata(p).ok()).map(|m| sat(m.len())).unwrap_or(0);
+        let foff = self.cfg["offset"].as_u64().unwrap_or(0);
         match unsafe { (*self.arena).truncate_x(n) } {
           None => json!({"k": "na"}),
+          Some(Ok(())) if self.file.is_some() => json!({"k": "ok", "flen": flen(self), "foff": foff}),
           Some(Ok(())) => json!({"k": "ok"}),
           Some(Err(e)) => json!({"k": "err_io", "kind": format!("{:?}", e.kind())}),
         }
